@@ -249,7 +249,7 @@ func runC09(c *Ctx, r *Run) {
 		return strings.HasSuffix(n, ".canAccept") || strings.HasSuffix(n, "(Message).IsFor")
 	})
 	for _, hn := range []string{"MultiHandler", "TwoPartyHandler"} {
-		acc := c.LookupMethod("pkg/protocol", hn, "Accept")
+		acc := c.LookupBody("pkg/protocol", hn, "Accept")
 		if acc == nil {
 			r.Unresolved("OB-S4", "pkg/protocol."+hn+".Accept")
 			continue
